@@ -68,9 +68,13 @@ type Op struct {
 type Input struct {
 	Kind   string `json:"kind"`   // seq | semver
 	NoRoot bool   `json:"noRoot"` // the plugin root directory does not exist at the start
-	Ops    []Op   `json:"ops"`
-	V      string `json:"v"`
-	W      string `json:"w"`
+	// RootLink: "none" | "self-link" | "self-real" | "ancestor-link" | "ancestor-real": the plugin root is reached
+	// through a symbolic link (the root itself / a directory above it); in-root sources are spelled through the
+	// link like the root ("-link") or through the real path ("-real")
+	RootLink string `json:"rootLink"`
+	Ops      []Op   `json:"ops"`
+	V        string `json:"v"`
+	W        string `json:"w"`
 }
 
 // ---- observation ---------------------------------------------------------------------------
@@ -329,9 +333,42 @@ func runSeq(work string, in Input) (Obs, error) {
 	}
 	defer os.RemoveAll(work)
 	root := filepath.Join(work, "root")
-	if !in.NoRoot {
-		if err := os.MkdirAll(root, 0o755); err != nil {
+	srcRoot := root // how in-root sources are spelled
+	switch {
+	case strings.HasPrefix(in.RootLink, "self"):
+		real := filepath.Join(work, "realroot")
+		if err := os.MkdirAll(real, 0o755); err != nil {
 			return obs, err
+		}
+		if err := os.Symlink(real, root); err != nil {
+			return obs, err
+		}
+		if strings.HasSuffix(in.RootLink, "-real") {
+			srcRoot = real
+		}
+	case strings.HasPrefix(in.RootLink, "ancestor"):
+		realcfg := filepath.Join(work, "volume", "config")
+		if err := os.MkdirAll(realcfg, 0o755); err != nil {
+			return obs, err
+		}
+		if err := os.Symlink(realcfg, filepath.Join(work, "cfg")); err != nil {
+			return obs, err
+		}
+		root = filepath.Join(work, "cfg", "plugins")
+		srcRoot = root
+		if strings.HasSuffix(in.RootLink, "-real") {
+			srcRoot = filepath.Join(realcfg, "plugins")
+		}
+		if !in.NoRoot {
+			if err := os.MkdirAll(root, 0o755); err != nil {
+				return obs, err
+			}
+		}
+	default:
+		if !in.NoRoot {
+			if err := os.MkdirAll(root, 0o755); err != nil {
+				return obs, err
+			}
 		}
 	}
 	ctx := context.Background()
@@ -340,7 +377,7 @@ func runSeq(work string, in Input) (Obs, error) {
 		st := StepObs{Err: "ok"}
 		switch op.Kind {
 		case "install":
-			path, err := materialise(filepath.Join(work, fmt.Sprintf("s%d", k)), root, op)
+			path, err := materialise(filepath.Join(work, fmt.Sprintf("s%d", k)), srcRoot, op)
 			if err != nil {
 				return obs, err
 			}
@@ -734,6 +771,8 @@ func (g *gen) afterPlant(pl Op) (Op, bool) {
 	return g.fromRoot(pl.Name, es, isDir, f, g.chance(0.5), g.chance(0.3)), true
 }
 
+var rootLinks = []string{"self-link", "self-real", "ancestor-link", "ancestor-real"}
+
 func (g *gen) rmexe() Op {
 	return Op{Kind: "rmexe", Name: g.pick(pluginNames), Entries: []Entry{}}
 }
@@ -745,7 +784,13 @@ func (g *gen) uninstall() Op {
 
 func (g *gen) sequence() Input {
 	n := 1 + g.c.Rand.Intn(6)
-	in := Input{Kind: "seq", NoRoot: g.chance(0.1), Ops: []Op{}}
+	in := Input{Kind: "seq", NoRoot: g.chance(0.1), RootLink: "none", Ops: []Op{}}
+	if g.chance(0.3) {
+		in.RootLink = g.pick(rootLinks)
+		if in.NoRoot && strings.HasPrefix(in.RootLink, "self") {
+			in.RootLink = "ancestor" + strings.TrimPrefix(in.RootLink, "self")
+		}
+	}
 	for i := 0; i < n; i++ {
 		switch {
 		case i == 0 && g.chance(0.6):
@@ -978,7 +1023,14 @@ func Run(c *common.Ctx) error {
 	g := &gen{c: c}
 	// --- operation sequences (generated first: worker processes regenerate the same list)
 	var seqs []Input
-	seqs = append(seqs, g.regressionShapes()...)
+	// every regression shape in every world: plain root, root (or an ancestor) reached through a
+	// symbolic link, in-root sources spelled through the link or through the real path
+	for _, sh := range g.regressionShapes() {
+		for _, rl := range append([]string{"none"}, rootLinks...) {
+			sh.RootLink = rl
+			seqs = append(seqs, sh)
+		}
+	}
 	nShapes := len(seqs)
 	// every ordered pair of versions x overwrite x source kind on one plugin
 	pool := append(append([]string{}, validVersions...), invalidVersions...)
@@ -986,7 +1038,7 @@ func Run(c *common.Ctx) error {
 		for _, vn := range pool {
 			for _, ow := range []bool{false, true} {
 				for _, fromDir := range []bool{false, true} {
-					seqs = append(seqs, Input{Kind: "seq", Ops: []Op{
+					seqs = append(seqs, Input{Kind: "seq", RootLink: append([]string{"none"}, rootLinks...)[len(seqs)%5], Ops: []Op{
 						g.simpleInstall("foo", vo, false, !fromDir), g.simpleInstall("foo", vn, ow, fromDir)}})
 				}
 			}
